@@ -144,7 +144,24 @@ def run_impl(row, ops):
         trace.append({"res": res_of_exc(exc), "exc": (type(exc).__name__ if exc else None),
                       "state": snap(a), "copy": (snap(cp) if cp is not None else None),
                       "other": snap(b), "defs": snap_defaults(cls)})
+    # what the getters return are values: writing into a returned dictionary reaches neither the element nor its class
+    if len(GETTER_ALIAS) < 5:
+        before = (snap(a), snap_defaults(cls))
+        try:
+            for g in (a.get_values, a.get_lower_limits, a.get_upper_limits, a.are_fixed, cls.get_default_values,
+                      cls.get_default_lower_limits, cls.get_default_upper_limits, cls.are_fixed_by_default):
+                d = g()
+                for k in list(d):
+                    d[k] = True if isinstance(d[k], bool) and not d[k] else (False if isinstance(d[k], bool) else 12345.678)
+                d["no_such_key"] = 1.0
+            if (snap(a), snap_defaults(cls)) != before:
+                GETTER_ALIAS.append((row["symbol"], "writing into a dictionary returned by a getter changed the element or its class defaults"))
+        except Exception as e:  # noqa
+            GETTER_ALIAS.append((row["symbol"], "a getter or its result raised %s" % type(e).__name__))
     return trace
+
+
+GETTER_ALIAS = []
 
 
 def trace_lit(row, ops, trace):
@@ -421,6 +438,7 @@ def run(rep, tier, seed, tr_errors):
         "C14_reset_restores_defaults", "C14_copy_equal", "C14_refused_changes_nothing_single"])
 
     # obligations 2: correspondence
+    del GETTER_ALIAS[:]
     rows, cases, n_ex = build_cases(tier, seed)
     done = []
     kinds = {}
@@ -457,6 +475,9 @@ def run(rep, tier, seed, tr_errors):
     rep.oblige("correspondence:ElemState-vs-base.py", not mism and not broken,
                "%d cases, %d mismatches, %d shards failed to evaluate" % (len(done), len(mism), len(broken)))
     rep.oblige("property-on-observed-traces", not viol and not broken, "%d traces violate holds_on" % len(viol))
+    rep.oblige("getters-return-values (writing into a returned dictionary reaches neither the element nor its class)", not GETTER_ALIAS, "%d problems" % len(GETTER_ALIAS))
+    for n_, (sym, why) in enumerate(GETTER_ALIAS[:3]):
+        rep.violation("getter_%d" % n_, {"kind": "counterexample", "obligation": "read-back values are values, not views of the element's state", "input": {"class": sym, "observed": why}})
     rep.extra["traces_validated_against_impl"] = len(done)
 
     kf = lib.load_known_findings()
